@@ -28,7 +28,7 @@ func c10() []*Ob {
 				if fn := c.Fn("(*proxy/bulk.processor).Process"); fn != nil {
 					var doc *ssa.Parameter
 					for _, p := range fn.Params {
-						if p.Name() == "doc" {
+						if ParamName(p) == "doc" {
 							doc = p
 						}
 					}
@@ -222,14 +222,28 @@ func c10() []*Ob {
 					return
 				}
 				doc := ResultN(proc[0], 0)
+				// where the processed document goes into the payload: the append itself, or the private helper
+				// that does it (any call other than logging that receives the document)
 				var appendDoc ssa.Instruction
-				for _, ap := range CallsIn(fn, Callee("builtin.append")) {
-					for _, a := range ap.Common().Args[1:] {
-						if a == doc {
-							appendDoc = ap.(ssa.Instruction)
+				for _, call := range CallsIn(fn, nil) {
+					if call == proc[0] {
+						continue
+					}
+					isAppend := CallName(call) == "builtin.append"
+					callee := StaticCallee(call)
+					if !isAppend && (callee == nil || !c.P.InRepo(callee) || !c.P.HasCall(callee, Callee("builtin.append"))) {
+						continue
+					}
+					for i, a := range call.Common().Args {
+						if isAppend && i == 0 {
+							continue
+						}
+						if a == doc && appendDoc == nil {
+							appendDoc = call.(ssa.Instruction)
 						}
 					}
 				}
+				// the created-items counter is the integer the function returns; its increments are the +1 that reach the return
 				var incs []*ssa.BinOp
 				for _, b := range fn.Blocks {
 					for _, in := range b.Instrs {
@@ -237,10 +251,19 @@ func c10() []*Ob {
 						if !ok || bo.Op != token.ADD {
 							continue
 						}
-						if k, isK := ConstInt(bo.Y); isK && k == 1 {
-							if phi, isPhi := bo.X.(*ssa.Phi); isPhi && phi.Comment == "total" {
-								incs = append(incs, bo)
+						if k, isK := ConstInt(bo.Y); !isK || k != 1 {
+							continue
+						}
+						reaches := false
+						for _, rb := range fn.Blocks {
+							if ret, isR := rb.Instrs[len(rb.Instrs)-1].(*ssa.Return); isR && len(ret.Results) > 0 {
+								if DerivesFromNoCall(RetOperand(ret, 0), func(v ssa.Value) bool { return v == ssa.Value(bo) }) {
+									reaches = true
+								}
 							}
+						}
+						if reaches {
+							incs = append(incs, bo)
 						}
 					}
 				}
@@ -281,7 +304,7 @@ func c10() []*Ob {
 						}
 						okAll := true
 						for i, e := range phi.Edges {
-							if p, isP := e.(*ssa.Parameter); isP && p.Name() == "requestTime" {
+							if p, isP := e.(*ssa.Parameter); isP && ParamName(p) == "requestTime" {
 								facts := FactsOnEdge(phi.Block().Preds[i], phi.Block())
 								v, found := BoolFact(facts, func(x ssa.Value) bool {
 									cl, ok := x.(ssa.CallInstruction)
@@ -541,7 +564,7 @@ func checkTimeSearch(c *Ctx, fn *ssa.Function) {
 		}
 		if DerivesFrom(RetOperand(ret, 0), func(v ssa.Value) bool {
 			p, isP := v.(*ssa.Parameter)
-			return isP && p.Name() == "requestTime"
+			return isP && ParamName(p) == "requestTime"
 		}) {
 			c.Site(ret.Pos(), "falls back to the request time")
 		} else {
